@@ -18,6 +18,12 @@ The Go code builds the response in one object that is both returned to the clien
 the wrapper; the subnet override for the Prefix transport clones it.  The model keeps the two objects
 and the two pointers (`Heap`), so that "the client's view is the forwarded view" is a statement about
 the assignments of the code and not true by construction.
+
+How `processC2SWrapper` puts the forwarded wrapper together (what it starts from, which fields it
+assigns) is a parameter of the model (`WrapperFacts`), instantiated with the facts extracted from the
+source text on every run (`CJ/Gen/C12Wrapper.lean`).  The station side (`stationApply`) is
+`NewRegistrationC2SWrapper` for one address family, with the station's own derivation as a parameter;
+it is executed by the driver (`station|…`) next to the real function.
 -/
 namespace CJ.Registrar
 
